@@ -1459,3 +1459,25 @@ Proof.
   destruct (reset_clears_meta t 4 t' feed Hwf Hne Hc Hr) as (_ & _ & _ & H & _).
   rewrite H. cbn. discriminate.
 Qed.
+
+(** * Soundness of the executable specification (C14Check.kp_isolation) *)
+From Gnmi Require Import Cache.C14Check.
+
+(** K_P(isolation) = true for a call addressed to [t] means: every other name
+    observed after the call has the observation it had before (HasTarget, the
+    whole Query result incl. metadata leaves, the Metadata() values, each
+    compared as C14Check.tobs_eqb does), and every announced entry carries [t] *)
+Theorem kp_isolation_sound prev o ob t :
+  op_addr o = AOne t -> kp_isolation prev o ob = true ->
+  (forall k a, In (k, a) (o_tgts ob) -> k <> t ->
+     exists b, assoc k prev = Some b /\ tobs_eqb b a = true) /\
+  (forall n, In n (o_feed ob) -> feed_tgt n = t).
+Proof.
+  intros Ha. unfold kp_isolation. rewrite Ha. intros H.
+  apply andb_true_iff in H. destruct H as [H1 H2]. rewrite forallb_forall in H1, H2. split.
+  - intros k a Hin Hne. specialize (H1 _ Hin). cbn [fst] in H1.
+    destruct (String.eqb_spec k t); [contradiction|]. cbn [orb] in H1.
+    unfold same_as_before in H1. cbn [fst snd] in H1.
+    destruct (assoc k prev) as [b|]; [|discriminate]. exists b. auto.
+  - intros n Hin. specialize (H2 _ Hin). now apply String.eqb_eq in H2.
+Qed.
